@@ -748,7 +748,7 @@ class Summaries:
 
     # ------------------------------------------------------------------ iterators
     def s_adaptor(self, ctx, st):
-        """core::iter::traits::iterator::Iterator::map | core::iter::traits::iterator::Iterator::take | core::iter::traits::iterator::Iterator::take_while | core::iter::traits::iterator::Iterator::filter | core::iter::traits::iterator::Iterator::skip | core::iter::traits::iterator::Iterator::by_ref | core::iter::sources::once::once | core::iter::traits::iterator::Iterator::enumerate | core::iter::traits::iterator::Iterator::zip | core::iter::traits::iterator::Iterator::copied | core::iter::traits::iterator::Iterator::cloned"""
+        """core::iter::traits::iterator::Iterator::map | core::iter::traits::iterator::Iterator::take | core::iter::traits::iterator::Iterator::take_while | core::iter::traits::iterator::Iterator::filter | core::iter::traits::iterator::Iterator::skip | core::iter::traits::iterator::Iterator::by_ref | core::iter::sources::once::once | core::iter::traits::iterator::Iterator::enumerate | core::iter::traits::iterator::Iterator::zip | core::iter::traits::iterator::Iterator::copied | core::iter::traits::iterator::Iterator::cloned | core::iter::traits::iterator::Iterator::flatten | core::iter::traits::iterator::Iterator::rev | core::iter::traits::iterator::Iterator::chain | core::iter::traits::iterator::Iterator::step_by | core::iter::traits::iterator::Iterator::skip_while | core::iter::traits::iterator::Iterator::peekable | core::iter::traits::iterator::Iterator::fuse | core::iter::traits::iterator::Iterator::inspect"""
         if ctx.r["kind"] == "body":
             return None
         name = ctx.callee["name"]
@@ -819,6 +819,21 @@ class Summaries:
             z = self.zip_next(ctx, st, itv)
             if z is not None:
                 return z
+        if isinstance(itv, Agg) and (itv.name or "").startswith("core::iter::") and itv.name not in ("core::iter::filter", "core::iter::into_iter"):
+            # an adaptor reaching this point is treated as an opaque source of items; a closure inside it would never be
+            # run. That is only acceptable if the closure cannot do anything but compute (no &mut, no hardware handle).
+            def closures(v, depth=0):
+                if depth > 5:
+                    return
+                if isinstance(v, Agg):
+                    if v.kind == "closure":
+                        yield v
+                    for f_ in v.fields:
+                        yield from closures(f_, depth + 1)
+            for cl in closures(itv):
+                if any(ex.reaches_effects(f_) for f_ in cl.fields):
+                    raise ex_undecided("next() on %s whose closure captures mutable state or a hardware handle: the interpreter "
+                                       "would not run it" % itv.name)
         # a chunk iterator whose progress is tracked below is updated field by field, not havoced as a whole
         counted = ctx.callee["name"] == "next" and isinstance(itv, Agg) and itv.name in ("core::slice::chunks_exact", "core::slice::chunks_exact_mut") \
             and len(itv.fields) >= 3 and isinstance(itv.fields[0], Ptr) and isinstance(itv.fields[1], IntV) and isinstance(ctx.args[0], Ptr) \
@@ -1066,7 +1081,17 @@ class Summaries:
         if ity is not None:
             r2["self_ty"] = ity
             r2["args"] = [ity]
-        c2 = type(ctx)(ex, ctx.fr, ctx.callee, r2, [recv], None, ctx.span, ctx.key)
+        # the inner iterator's item type, from its own (documented) signature
+        item = None
+        if ity is not None:
+            item = ex.normalize({"k": "proj", "def": "core::iter::traits::iterator::Iterator::Item", "name": "Item",
+                                 "trait": "core::iter::traits::iterator::Iterator", "args": [ity]})
+            if item.get("k") == "proj":
+                item = None
+        if item is None:
+            return None
+        oty = {"k": "adt", "def": OPTION, "args": [item]}
+        c2 = type(ctx)(ex, ctx.fr, ctx.callee, r2, [recv], oty, ctx.span, ctx.key)
         out = []
         for (s1, ra) in self.s_iter_next(c2, st):
             try:
